@@ -67,8 +67,8 @@ Unspecified(e, pre) ==
 
 \* the implementation-layer operator for the call (deviation OFF)
 Nominal(e, pre) ==
-   CASE e.op = "read"           -> IRead(JLines(e.lines), ToSet(e.drop))
-     [] e.op = "qread"          -> IRead(JLines(e.lines), {})            \* qread(pickle of that collection)
+   CASE e.op = "read"           -> IReadClosed(JLines(e.lines), ToSet(e.drop))
+     [] e.op = "qread"          -> IReadClosed(JLines(e.lines), {})      \* qread(pickle of that collection)
      [] e.op = "insert"         -> IInsert(pre, e.a, ToSet(e.s), FALSE)
      [] e.op = "reverse"        -> IReverse(pre)
      [] e.op = "reverse_copy"   -> IReverseCopy(pre)
@@ -82,7 +82,7 @@ Nominal(e, pre) ==
      [] e.op = "filter_pt_copy" -> IFilterPT(pre, ToSet(e.s))
      [] e.op = "filter_t"       -> IFilterT(pre, ToSet(e.s))
      [] e.op = "filter_t_copy"  -> IFilterT(pre, ToSet(e.s))
-     [] e.op = "facet"          -> IFacet(pre, SetToSeq(DOMAIN pre.db), FALSE)
+     [] e.op = "facet"          -> IFacetClosed(pre)
 
 \* the reference operator for the call
 RefNext(e, a) ==
@@ -132,11 +132,11 @@ FailureOK(e, pre, obs) ==
                                 /\ AbsOf(obs) \in AReadFailsAllowed(AbsOf(pre), JLines(e.lines), ToSet(e.drop), e.k)
      [] e.op = "qread_fail" ->
            /\ e.exc # ""
-           /\ \/ obs \in {pre, IRead(JLines(e.lines), {})}
-              \/ DevQAllowed /\ obs = IQReadFails(pre, IRead(JLines(e.lines), {}), e.k, TRUE)
+           /\ \/ obs \in {pre, IReadClosed(JLines(e.lines), {})}
+              \/ DevQAllowed /\ obs = IQReadFails(pre, IReadClosed(JLines(e.lines), {}), e.k, TRUE)
      [] e.op = "probe" ->                       \* error type unspecified; a call that succeeds is unspecified too
            IF InverseOf(pre) THEN InverseOf(obs) ELSE obs = pre
-DevQStep(e, pre, obs) == e.op = "qread_fail" /\ obs \notin {pre, IRead(JLines(e.lines), {})}
+DevQStep(e, pre, obs) == e.op = "qread_fail" /\ obs \notin {pre, IReadClosed(JLines(e.lines), {})}
 
 TInit == /\ tid \in 1..Len(Traces)
          /\ l = 1
